@@ -63,7 +63,12 @@ type c44Case struct {
 }
 
 func newC44Inter(storage interpreter.Storage) *interpreter.Interpreter {
-	inter, err := interpreter.NewInterpreter(nil, nil, &interpreter.Config{Storage: storage})
+	// the checked prelude contract supplies the declarations of the nominal types
+	program, err := cdcval.PreludeProgram()
+	if err != nil {
+		panic(err)
+	}
+	inter, err := interpreter.NewInterpreter(program, cdcval.LocC, &interpreter.Config{Storage: storage})
 	if err != nil {
 		panic(err)
 	}
@@ -97,7 +102,7 @@ func dumpIV(inter *interpreter.Interpreter, v interpreter.Value) string {
 	case interpreter.AddressValue:
 		return fmt.Sprintf("Address(%x)", [8]byte(v))
 	case interpreter.PathValue:
-		return fmt.Sprintf("Path(%d,%q)", v.Domain, v.Identifier)
+		return fmt.Sprintf("Path(%s,%q)", v.Domain.Identifier(), v.Identifier)
 	case *interpreter.SomeValue:
 		return "Some(" + dumpIV(inter, v.InnerValue()) + ")"
 	case interpreter.TypeValue:
@@ -143,7 +148,7 @@ func dumpIV(inter *interpreter.Interpreter, v interpreter.Value) string {
 			return true
 		})
 		sort.Strings(ent)
-		return fmt.Sprintf("Composite<%d %s>{%s}", v.Kind, v.TypeID(), strings.Join(ent, ","))
+		return fmt.Sprintf("Composite<%s %s>{%s}", v.Kind.Name(), v.TypeID(), strings.Join(ent, ","))
 	}
 	if n, ok := v.(interpreter.NumberValue); ok {
 		return fmt.Sprintf("%T(%s)", v, num.Raw(n).String())
@@ -295,7 +300,17 @@ func leafClass(v interpreter.Value) string {
 	s = strings.TrimPrefix(s, "values.")
 	switch v := v.(type) {
 	case *interpreter.SomeValue:
-		return "SomeValue(" + leafClass(v.InnerValue()) + ")"
+		n := 0
+		var inner interpreter.Value = v
+		for {
+			sv, ok := inner.(*interpreter.SomeValue)
+			if !ok {
+				break
+			}
+			n++
+			inner = sv.InnerValue()
+		}
+		return fmt.Sprintf("SomeValue[%d levels]", n)
 	case interpreter.TypeValue:
 		if v.Type == nil {
 			return "TypeValue(nil)"
@@ -315,12 +330,7 @@ func c44Containers(depth int) []builder {
 	intT := interpreter.PrimitiveStaticTypeInt
 	strT := interpreter.PrimitiveStaticTypeString
 	a1 := interpreter.NewUnmeteredAddressValueFromBytes([]byte{1})
-	// Inserting into a typed container checks the element's dynamic type against the static
-	// element type, which needs the declarations of nominal types; the harness interpreter has
-	// no program, so types inside containers use built-in types and entitlements only.
-	borrow := runtime.ImportType(nil, cadence.NewReferenceType(
-		cadence.NewEntitlementSetAuthorization(nil, []common.TypeID{"Mutate", "Insert"}, cadence.Conjunction),
-		cadence.NewVariableSizedArrayType(cadence.IntType)))
+	borrow := c44BorrowTypes()[1]
 
 	leafs := []builder{
 		{"Int", func(*interpreter.Interpreter) interpreter.Value { return interpreter.NewUnmeteredIntValueFromInt64(-7) }},
@@ -799,8 +809,10 @@ func runC44(env *mc.Env) {
 	}
 
 	depth := mc.Pick(env, 2, 3)
+	c44SkippedTypes.Store(0)
 	cases := c44Cases(depth)
 	env.R.Set("cases", len(cases))
+	env.R.Set("cadence_types_without_static_counterpart_skipped", c44SkippedTypes.Load()/2) // the enumerator runs twice (types, type values)
 	current := make(map[string]c44Encoding, len(cases))
 	encs := make([]c44Encoding, len(cases))
 	mc.ParallelFor(env, len(cases), func(i int) {
